@@ -241,6 +241,16 @@ def compare_layers(ref_layers, got_layers, tol, ngrid=24, check_palette=True):
             problems.append({"what": "fill mismatch (inside/outside)", "layer": i, "point": [float(pts[k][0]), float(pts[k][1])], "ref_inside": bool(inside_r[k])})
             continue
         ip = pts[inside_r & inside_g & far]
+        if len(ip) < 12:
+            # a layer too small to have points well away from its outline: the paint functions are defined everywhere
+            # and the envelope already allows for a displacement of eps, so points near the outline decide as well
+            ip = pts[inside_r & inside_g]
+            if len(ip) < 12:
+                ip = pts[inside_r | inside_g]
+            if len(ip) < 12:
+                cx_, cy_ = (bb[0] + bb[2]) / 2, (bb[1] + bb[3]) / 2
+                hw, hh = max(0.25, (bb[2] - bb[0]) / 4), max(0.25, (bb[3] - bb[1]) / 4)
+                ip = np.array([[cx_ + i_ * hw, cy_ + j_ * hh] for i_ in (-1, -0.5, 0, 0.5, 1) for j_ in (-1, 0, 1)])
         if r.paint.kind != "solid" or g.paint.kind != "solid":
             stats["gradient_layers"] += 1
         if r.paint.kind == "solid" and g.paint.kind == "solid":
